@@ -42,6 +42,52 @@ def store_scripts(tier):
     return out
 
 
+def burst_sync_scripts(tier):
+    """changes and sync requests sent back to back, so that a lane answers a sync while it still has a change
+    that has not gone out as a standard event (the sync event then carries state no standard event has carried)"""
+    out = []
+    v = [1]
+
+    def nxt():
+        v[0] += 1
+        return v[0]
+    for lane, kind in (("val", "v"), ("val2", "v"), ("map", "m"), ("omap", "m")):
+        for nsets in (2, 3, 5):
+            for readers in (1, 2):
+                for how in ("kill", "quiesce"):
+                    acts = [{"k": "attach", "r": 1, "cap": 4096}, {"k": "attach", "r": 2, "cap": 4096},
+                            {"k": "send", "r": 1, "lane": lane, "op": "link"}]
+                    for rep in range(3):
+                        for j in range(nsets):
+                            if kind == "v":
+                                acts.append({"k": "send", "r": 1, "lane": lane, "op": "cmd", "m": "set", "v": nxt(), "nosettle": True})
+                            else:
+                                acts.append({"k": "send", "r": 1, "lane": lane, "op": "cmd", "m": "upd", "key": 1 + (j % 3), "v": nxt(), "nosettle": True})
+                        for r in range(1, readers + 1):
+                            acts.append({"k": "send", "r": 3 - r if readers == 1 else r, "lane": lane, "op": "sync", "nosettle": True})
+                    acts.append({"k": "settle"})
+                    acts += ([{"k": "kill"}] if how == "kill" else [{"k": "quiesce"}]) + [{"k": "restart"}]
+                    out.append(acts)
+    # one handler queues several map operations at once; a sync arrives while they are still being emitted
+    for lane in ("map", "omap"):
+        for nops in (2, 3):
+            for pre in (0, 1):
+                for how in ("kill", "quiesce"):
+                    acts = [{"k": "attach", "r": 1, "cap": 4096}, {"k": "attach", "r": 2, "cap": 4096},
+                            {"k": "send", "r": 1, "lane": lane, "op": "link"}]
+                    if pre:
+                        acts.append({"k": "send", "r": 1, "lane": "cmd", "op": "cmd", "m": "prog", "tag": nxt(),
+                                     "prog": [{"i": "upd", "lane": lane, "key": kk, "v": nxt()} for kk in (1, 2, 3)]})
+                    for rep in range(3):
+                        acts.append({"k": "send", "r": 1, "lane": "cmd", "op": "cmd", "m": "prog", "tag": nxt(), "nosettle": True,
+                                     "prog": [{"i": "upd", "lane": lane, "key": 1 + ((rep + j) % 3), "v": nxt()} for j in range(nops)]})
+                        acts.append({"k": "send", "r": 2, "lane": lane, "op": "sync", "nosettle": True})
+                    acts.append({"k": "settle"})
+                    acts += ([{"k": "kill"}] if how == "kill" else [{"k": "quiesce"}]) + [{"k": "restart"}]
+                    out.append(acts)
+    return out
+
+
 def run(tier, out):
     wd = core.workdir("C05")
     core.build_harness("h_runtime", "e2e")
@@ -52,9 +98,10 @@ def run(tier, out):
         out.add(states=r.generated, transitions=r.generated)
         batches.append(("profile %d" % pi, scripts))
     batches.append(("store histories x every cut", store_scripts(tier)))
+    batches.append(("bursts of changes and syncs", burst_sync_scripts(tier)))
     restarts = 0
     for bi, (name, scripts) in enumerate(batches):
-        cases, results = e2e.run_scripts(wd, scripts, {"store": True}, tag="run%d" % bi)
+        cases, results = e2e.run_scripts(wd, scripts, {"store": True, "eager_store_read": bi != 1}, tag="run%d" % bi)
         acc, rej, nev = e2e.validate_cases(out, "C05", "Trace_Persistence", cases, results, e2e.proj_persist, CONSTS, wd,
                                            "persistence (%s)" % name, tag="tv%d" % bi)
         restarts += sum(1 for r in results for e in r["log"] if e["e"] == "restart")
@@ -74,7 +121,7 @@ def replay(path, out):
     obj = json.load(open(path))["replay"]
     wd = core.workdir("C05_replay")
     case = obj["case"]
-    cases, results = e2e.run_scripts(wd, [case["acts"]], case.get("cfg", {"store": True}), tag="replay", final=())
+    cases, results = e2e.run_scripts(wd, [case["acts"]], case.get("cfg", {"store": True}), tag="replay", final=(), vary=False)
     ev = e2e.proj_persist(results[0]["log"])
     res = e2e.validate("Trace_Persistence", ev, os.path.join(wd, "tv"), CONSTS)
     print(json.dumps(res))
